@@ -100,7 +100,9 @@ func main() {
 	}
 	// with a directory cache: change, build, change back - the crashed build restores every target from the cache
 	scs = append(scs, scenario{fam: dirs, edits: []string{"init", "d_txt=y", "d_txt=x"}, cfg: dirCache})
+	// ... and a fresh plz-out (new checkout, rm -rf plz-out) with a warm cache: nothing is there, everything is restored
 	if !r.Quick() {
+		scs = append(scs, scenario{fam: hist.Dirs{Threads: "1", WithRm: true}, edits: []string{"init", "rm-plz-out"}, cfg: dirCache})
 		scs = append(scs, scenario{fam: chain, edits: []string{"init", "a_txt=y", "a_txt=x"}, cfg: dirCache})
 	}
 	if r.Replay != "" {
@@ -108,7 +110,7 @@ func main() {
 		lib.LoadReplay(r.Replay, &w)
 		var f hist.Family = chain
 		if w.Family == "dirs" {
-			f = dirs
+			f = hist.Dirs{Threads: "1", WithRm: true}
 		}
 		scs = []scenario{{fam: f, edits: append(append([]string{}, w.History...), w.Edit), cfg: w.Cfg}}
 	}
@@ -142,7 +144,11 @@ func main() {
 		}
 		last := sc.edits[len(sc.edits)-1]
 		if last != "init" {
-			src = findEdit(sc.fam, src, last).Src
+			ed := findEdit(sc.fam, src, last)
+			src = ed.Src
+			if ed.Pre != nil {
+				ed.Pre(filepath.Join(pre, "repo")) // e.g. rm -rf plz-out
+			}
 		}
 		hist.Materialise(sc.fam, src, filepath.Join(pre, "repo"), cfgOf(sc))
 		clean := e.CleanObs(src, noCache)
